@@ -7,6 +7,7 @@
 -/
 import Bkl.Process2
 import BklProofs.Lemmas.Process1
+import BklProofs.Lemmas.C10Inline
 set_option linter.unusedVariables false
 namespace Bkl
 
@@ -627,5 +628,543 @@ theorem C10_self_reference_processDoc (env : Vars) :
     processDoc [] env (.map [("a", .str "$merge:a")]) = .error .circularRef := by
   unfold processDoc
   rw [C10_self_reference_is_error]; rfl
+
+/-! ## end to end: "as if the referenced subtree were written inline"
+
+  Setting.  The document root is `.map kvs` (keys strictly increasing); the host is the entry
+  at the top-level key `h`; the reference denotes the key path `ks` of the document
+  (`PathRef ref ks`: a dotted string `a.b.c` — `pathRef_str` —, or a list `[a, b, c]` —
+  `pathRef_list`), which resolves to the subtree `t`.  "Written inline" is the document
+  `.map (fset kvs h t)` (Go: `doc[h] = t`).  Only the evaluated VALUE is compared
+  (`Except.map Prod.fst`; `processDoc` discards the threaded root).
+
+  As asked — with arbitrary other entries and up to the depth limit — the statements are FALSE:
+  * another entry may read the *raw* host: `a: {$merge: b, x: 1}` merges the map
+    `{$replace: c}` itself into `a` (`C10_inline_replace_false`), `a: {$replace: [b, $merge]}`
+    reads the `$merge` key of the host `b` (`C10_inline_merge_false`);
+  * following the reference costs one level of the depth guard, so a subtree of depth
+    `depthLimit - 2` evaluates when written inline and is `circularRef` when referenced
+    (`C10_inline_replace_depth_false`).
+  The `_partial` theorems exclude these classes:
+  * the entries other than the host never read the host: `SafeFields h (fdel kvs h)` — they
+    contain no map-level `$merge` key, and every reference in them (the value of a `$replace`
+    key, a `$merge:` / `$replace:` string, leaf or key) is a string or list path into the
+    document whose first key is not `h`; they may freely refer to each other and to the target
+    (every reference-free entry is safe: `refFreeFields_safe`);
+  * the inlined value evaluates with two levels of the depth guard to spare.
+  Helper lemmas: `BklProofs/Lemmas/C10Inline.lean`. -/
+
+/-- **`$replace`, general form.**  `hostv` forwards to `ref` (`Forwards`: the map form
+    `{$replace: ref, …}`, the string forms `"$replace:p"` / `"$merge:p"`), `ref` denotes the path
+    `ks`, which holds the reference-free subtree `t`; no other entry reads the host.
+    Unless `t` needs the last two levels of the depth guard, the document evaluates to the same
+    value as the document with `t` written in place of the host.  (Host and target need not even
+    be disjoint: if `t` lies inside the host the statement still holds.) -/
+theorem C10_inline_replace_partial {fuel : Nat} {docs : List Val} {kvs : Fields} {h : String}
+    {hostv ref t : Val} {ks : List String}
+    (hs : Fields.SortedKeys kvs) (hh : fget kvs h = some hostv) (hhk : refKey h = false)
+    (hfw : Forwards hostv ref) (hp : PathRef ref ks) (ht : getPath (.map kvs) ks = .ok t)
+    (htf : refFree t = true) (ho : SafeFields h (fdel kvs h) = true)
+    (h1 : fget kvs "$replace" = none)
+    (hfuel : process1 fuel [] .null none t ≠ .error .circularRef) :
+    Except.map Prod.fst (process1 (fuel + 2) docs (.map kvs) (some []) (.map kvs)) =
+      Except.map Prod.fst
+        (process1 (fuel + 2) docs (.map (fset kvs h t)) (some []) (.map (fset kvs h t))) :=
+  inline_replace_safe_core hs hh hhk hfw hp ht htf ho h1 hfuel
+
+/-- the map form `h: {$replace: "a.b.c", …}` with a dotted path of plain keys -/
+theorem C10_inline_replace_map_partial {fuel : Nat} {docs : List Val} {kvs m : Fields}
+    {h p : String} {t : Val} {ks : List String}
+    (hs : Fields.SortedKeys kvs) (hh : fget kvs h = some (.map m)) (hhk : refKey h = false)
+    (h0 : fget m "$merge" = none) (hr : fget m "$replace" = some (.str p))
+    (hp1 : parseRef p = some (.str p)) (hp2 : p.splitOn "." = ks)
+    (ht : getPath (.map kvs) ks = .ok t)
+    (htf : refFree t = true) (ho : SafeFields h (fdel kvs h) = true)
+    (h1 : fget kvs "$replace" = none) (hd : depth t < fuel) :
+    Except.map Prod.fst (process1 (fuel + 2) docs (.map kvs) (some []) (.map kvs)) =
+      Except.map Prod.fst
+        (process1 (fuel + 2) docs (.map (fset kvs h t)) (some []) (.map (fset kvs h t))) :=
+  inline_replace_safe_core hs hh hhk (forwards_map_replace h0 hr) (pathRef_str hp1 hp2) ht htf ho
+    h1 (process1_refFree_ne_circ htf hd)
+
+/-- the string form `h: "$replace:a.b.c"` -/
+theorem C10_inline_replace_string_partial {fuel : Nat} {docs : List Val} {kvs : Fields}
+    {h p : String} {t : Val} {ks : List String}
+    (hs : Fields.SortedKeys kvs) (hh : fget kvs h = some (.str ("$replace:" ++ p)))
+    (hhk : refKey h = false)
+    (hp1 : parseRef p = some (.str p)) (hp2 : p.splitOn "." = ks)
+    (ht : getPath (.map kvs) ks = .ok t)
+    (htf : refFree t = true) (ho : SafeFields h (fdel kvs h) = true)
+    (h1 : fget kvs "$replace" = none) (hd : depth t < fuel) :
+    Except.map Prod.fst (process1 (fuel + 2) docs (.map kvs) (some []) (.map kvs)) =
+      Except.map Prod.fst
+        (process1 (fuel + 2) docs (.map (fset kvs h t)) (some []) (.map (fset kvs h t))) :=
+  inline_replace_safe_core hs hh hhk (forwards_str_replace p) (pathRef_str hp1 hp2) ht htf ho
+    h1 (process1_refFree_ne_circ htf hd)
+
+/-- the special case where the other entries are reference-free -/
+theorem C10_inline_replace_refFree_partial {fuel : Nat} {docs : List Val} {kvs : Fields}
+    {h : String} {hostv ref t : Val} {ks : List String}
+    (hs : Fields.SortedKeys kvs) (hh : fget kvs h = some hostv) (hhk : refKey h = false)
+    (hfw : Forwards hostv ref) (hp : PathRef ref ks) (ht : getPath (.map kvs) ks = .ok t)
+    (htf : refFree t = true) (ho : refFreeFields (fdel kvs h) = true)
+    (hfuel : process1 fuel [] .null none t ≠ .error .circularRef) :
+    Except.map Prod.fst (process1 (fuel + 2) docs (.map kvs) (some []) (.map kvs)) =
+      Except.map Prod.fst
+        (process1 (fuel + 2) docs (.map (fset kvs h t)) (some []) (.map (fset kvs h t))) :=
+  inline_replace_core hs hh hhk hfw hp ht htf ho hfuel
+
+/-- At the level of `processDoc` / `outputDocument` (fuel = the depth guard of process1.go): the
+    referencing document and the document with the subtree written inline produce the same
+    output documents, or the same error. -/
+theorem C10_inline_replace_output_partial {docs : List Val} {env : Vars} {kvs : Fields}
+    {h : String} {hostv ref t : Val} {ks : List String}
+    (hs : Fields.SortedKeys kvs) (hh : fget kvs h = some hostv) (hhk : refKey h = false)
+    (hfw : Forwards hostv ref) (hp : PathRef ref ks) (ht : getPath (.map kvs) ks = .ok t)
+    (htf : refFree t = true) (ho : SafeFields h (fdel kvs h) = true)
+    (h1 : fget kvs "$replace" = none) (hd : depth t + 2 < depthLimit) :
+    processDoc docs env (.map kvs) = processDoc docs env (.map (fset kvs h t)) ∧
+    outputDocument docs env (.map kvs) = outputDocument docs env (.map (fset kvs h t)) := by
+  have hfuel : process1 (depthLimit - 2) [] .null none t ≠ .error .circularRef :=
+    process1_refFree_ne_circ htf (by omega)
+  have hdl : depthLimit - 2 + 2 = depthLimit := rfl
+  have := inline_replace_safe_core (docs := docs) hs hh hhk hfw hp ht htf ho h1 hfuel
+  rw [hdl] at this
+  exact ⟨processDoc_congr this, outputDocument_congr (processDoc_congr this)⟩
+
+-- non-vacuity: `a: {x: 1}, b: {$replace: a}, c: "$replace:a", d: {$replace: a}` — the entries
+-- `c` and `d` refer to the target, not to the host `b`
+example :
+    let kvs : Fields := [("a", .map [("x", .int 1)]), ("b", .map [("$replace", .str "a")]),
+      ("c", .str ("$replace:" ++ "a")), ("d", .map [("$replace", .str "a")])]
+    Fields.SortedKeys kvs ∧ fget kvs "b" = some (.map [("$replace", .str "a")]) ∧
+    refKey "b" = false ∧ Forwards (.map [("$replace", .str "a")]) (.str "a") ∧
+    PathRef (.str "a") ["a"] ∧ getPath (.map kvs) ["a"] = .ok (.map [("x", .int 1)]) ∧
+    refFree (.map [("x", .int 1)]) = true ∧ SafeFields "b" (fdel kvs "b") = true ∧
+    fget kvs "$replace" = none ∧ depth (.map [("x", .int 1)]) + 2 < depthLimit := by
+  refine ⟨by decide, by decide, by decide, forwards_map_replace (by decide) (by decide),
+    pathRef_simpleKey simpleKey_a, rfl, by decide, ?_, by decide, by decide⟩
+  have hfd : fdel [("a", Val.map [("x", .int 1)]), ("b", .map [("$replace", .str "a")]),
+      ("c", .str ("$replace:" ++ "a")), ("d", .map [("$replace", .str "a")])] "b" =
+      [("a", .map [("x", .int 1)]), ("c", .str ("$replace:" ++ "a")),
+       ("d", .map [("$replace", .str "a")])] := by decide
+  rw [hfd]
+  have hsa := safeStrRef_a "b" (by decide)
+  apply safeFields_of_mem
+  intro q hq
+  simp only [List.mem_cons, List.not_mem_nil, or_false] at hq
+  rcases hq with rfl | rfl | rfl
+  · exact ⟨by decide, safeStr_of_not_refStr (by decide), fun e => absurd e (by decide),
+      refFree_safe "b" _ (by decide)⟩
+  · exact ⟨by decide, safeStr_of_not_refStr (by decide), fun e => absurd e (by decide),
+      safe_str_replace hsa⟩
+  · exact ⟨by decide, safeStr_of_not_refStr (by decide), fun e => absurd e (by decide),
+      safe_map_replace hsa (by decide)⟩
+
+-- non-vacuity of the reference-free special case: `a: {x: 1}, b: {$replace: a}`
+example :
+    let kvs : Fields := [("a", .map [("x", .int 1)]), ("b", .map [("$replace", .str "a")])]
+    refFreeFields (fdel kvs "b") = true ∧
+    fset kvs "b" (.map [("x", .int 1)]) = [("a", .map [("x", .int 1)]), ("b", .map [("x", .int 1)])] :=
+  ⟨by decide, by decide⟩
+
+-- non-vacuity of the dotted-path and string forms: `a: {c: {x: 1}}, b: {$replace: a.c}` and
+-- `a: {c: {x: 1}}, b: "$replace:a.c"`
+example :
+    let kvs : Fields := [("a", .map [("c", .map [("x", .int 1)])]),
+      ("b", .map [("$replace", .str "a.c")])]
+    Fields.SortedKeys kvs ∧ fget kvs "b" = some (.map [("$replace", .str "a.c")]) ∧
+    refKey "b" = false ∧ fget [("$replace", Val.str "a.c")] "$merge" = none ∧
+    fget [("$replace", Val.str "a.c")] "$replace" = some (.str "a.c") ∧
+    parseRef "a.c" = some (.str "a.c") ∧ "a.c".splitOn "." = ["a", "c"] ∧
+    getPath (.map kvs) ["a", "c"] = .ok (.map [("x", .int 1)]) ∧
+    refFree (.map [("x", .int 1)]) = true ∧ SafeFields "b" (fdel kvs "b") = true ∧
+    fget kvs "$replace" = none ∧ depth (.map [("x", .int 1)]) < 5 :=
+  ⟨by decide, by decide, by decide, by decide, by decide, parseRef_a_c, splitOn_a_c, rfl,
+   by decide, refFreeFields_safe "b" _ (by decide), by decide, by decide⟩
+
+example :
+    let kvs : Fields := [("a", .map [("c", .map [("x", .int 1)])]),
+      ("b", .str ("$replace:" ++ "a.c"))]
+    Fields.SortedKeys kvs ∧ fget kvs "b" = some (.str ("$replace:" ++ "a.c")) ∧
+    getPath (.map kvs) ["a", "c"] = .ok (.map [("x", .int 1)]) ∧
+    SafeFields "b" (fdel kvs "b") = true ∧ fget kvs "$replace" = none ∧
+    ("$replace:" ++ "a.c" : String) = "$replace:a.c" :=
+  ⟨by decide, by decide, rfl, refFreeFields_safe "b" _ (by decide), by decide, by decide⟩
+
+/-- **FALSE without the restriction on the other entries.**  In
+    `a: {$merge: b, x: 1}, b: {$replace: c}, c: {x: 1}` the host `b` satisfies every hypothesis
+    about host and target (the target `c` is reference-free, host and target are disjoint), but
+    the entry `a` merges the raw host map `{$replace: c}` into itself and becomes a `$replace`
+    host: the document evaluates to `{a: {x: 1}, b: {x: 1}, c: {x: 1}}`, whereas with `{x: 1}`
+    written inline at `b` the entry `a` is the conflicting merge of `{x: 1}` with `{x: 1}`.
+    (For every fuel ≥ 5, in particular the depth limit.) -/
+theorem C10_inline_replace_false (fuel : Nat) (docs : List Val) :
+    Fields.SortedKeys cexHostMerged ∧ Val.WF (.map cexHostMerged) ∧
+    fget cexHostMerged "b" = some (.map [("$replace", .str "c")]) ∧
+    PathRef (.str "c") ["c"] ∧ getPath (.map cexHostMerged) ["c"] = .ok (.map [("x", .int 1)]) ∧
+    refFree (.map [("x", .int 1)]) = true ∧
+    Except.map Prod.fst
+      (process1 (fuel + 5) docs (.map cexHostMerged) (some []) (.map cexHostMerged)) =
+      .ok (.map [("a", .map [("x", .int 1)]), ("b", .map [("x", .int 1)]),
+                 ("c", .map [("x", .int 1)])]) ∧
+    Except.map Prod.fst
+      (process1 (fuel + 5) docs (.map (fset cexHostMerged "b" (.map [("x", .int 1)]))) (some [])
+        (.map (fset cexHostMerged "b" (.map [("x", .int 1)])))) = .error .uselessOverride :=
+  ⟨by decide, by decide, by decide, pathRef_simpleKey simpleKey_c, rfl, by decide,
+   cexHostMerged_ref fuel docs, by rw [cexHostMerged_inline (fuel + 2) docs]; rfl⟩
+
+/-- the same at the level of `processDoc`: the inline document is an error, the referencing
+    document is not that error -/
+theorem C10_inline_replace_false_processDoc (docs : List Val) (env : Vars) :
+    processDoc docs env (.map (fset cexHostMerged "b" (.map [("x", .int 1)]))) =
+      .error .uselessOverride ∧
+    processDoc docs env (.map cexHostMerged) ≠ .error .uselessOverride := by
+  constructor
+  · unfold processDoc
+    rw [show depthLimit = 997 + 3 from rfl, cexHostMerged_inline 997 docs]; rfl
+  · intro h
+    unfold processDoc at h
+    obtain ⟨r', hr'⟩ := ok_of_map_fst (cexHostMerged_ref 995 docs)
+    rw [show depthLimit = 995 + 5 from rfl, hr'] at h
+    simp only [R_bind_ok] at h
+    have hrep : repeatDoc (.map [("a", .map [("x", .int 1)]), ("b", .map [("x", .int 1)]),
+        ("c", .map [("x", .int 1)])]) env =
+        .ok [(.map [("a", .map [("x", .int 1)]), ("b", .map [("x", .int 1)]),
+          ("c", .map [("x", .int 1)])], env)] := rfl
+    rw [hrep] at h
+    simp only [R_bind_ok, mapM_cons, List.mapM_nil] at h
+    rw [show 995 + 5 = depthLimit from rfl,
+      e_process2_plain depthLimit docs _ env _ (by decide) (by decide) (by decide)] at h
+    cases h
+
+/-- **FALSE at the depth limit.**  Following the reference costs one level of the depth guard:
+    with `a: nest n` (`n` nested singleton lists) and `b: {$replace: a}`, fuel `n + 2` evaluates
+    the inline document but reports `circularRef` for the referencing one.  With `n = 998` the
+    fuel is the depth guard of process1.go (`depthLimit`). -/
+theorem C10_inline_replace_depth_false (n : Nat) (docs : List Val) :
+    refFree (nest n) = true ∧ depth (nest n) = n ∧
+    getPath (.map (cexDeep n)) ["a"] = .ok (nest n) ∧
+    process1 (n + 2) docs (.map (cexDeep n)) (some []) (.map (cexDeep n)) = .error .circularRef ∧
+    process1 (n + 2) docs (.map (fset (cexDeep n) "b" (nest n))) (some [])
+      (.map (fset (cexDeep n) "b" (nest n))) =
+      .ok (.map [("a", nest n), ("b", nest n)], .map [("a", nest n), ("b", nest n)]) :=
+  ⟨nest_refFree n, (e_nest_props n).2.2.1, rfl, cexDeep_ref n docs, cexDeep_inline n docs⟩
+
+theorem C10_inline_replace_depth_false_processDoc (docs : List Val) (env : Vars) :
+    processDoc docs env (.map (cexDeep 998)) = .error .circularRef ∧
+    ∃ r, process1 depthLimit docs (.map (fset (cexDeep 998) "b" (nest 998))) (some [])
+      (.map (fset (cexDeep 998) "b" (nest 998))) = .ok r := by
+  constructor
+  · unfold processDoc
+    rw [show depthLimit = 998 + 2 from rfl, cexDeep_ref 998 docs]; rfl
+  · exact ⟨_, cexDeep_inline 998 docs⟩
+
+/-! ### `$merge` -/
+
+/-- **`$merge`.**  The host is `h: {$merge: ref, …local…}`; `ref` denotes the path `k :: ks`
+    (`k ≠ h`: the target does not lie inside the host) which holds the reference-free `t`; no
+    other entry reads the host.  If the ordinary merge of the local content with `t`
+    (`merge local t`: the referenced value layered onto the local content, the direction of
+    `C10_merge_map`) succeeds with `nv`, the document evaluates to the same value as the
+    document with `nv` written in place of the host — unless the evaluation of `nv` needs the
+    last two levels of the depth guard.  `t` may be a map (merged key by key), `null` (the local
+    content alone) or, when there is no local content, a scalar or a list. -/
+theorem C10_inline_merge_partial {fuel : Nat} {docs : List Val} {kvs m : Fields} {h k : String}
+    {ref t nv : Val} {ks : List String}
+    (hs : Fields.SortedKeys kvs) (hh : fget kvs h = some (.map m)) (hhk : refKey h = false)
+    (hm : fget m "$merge" = some ref) (hp : PathRef ref (k :: ks)) (hk : k ≠ h)
+    (ht : getPath (.map kvs) (k :: ks) = .ok t) (htf : refFree t = true)
+    (ho : SafeFields h (fdel kvs h) = true) (h1 : fget kvs "$replace" = none)
+    (hn : merge (.map (fdel m "$merge")) t = .ok nv)
+    (hfuel : process1 fuel docs (.map (fset kvs h nv)) (some [.key h]) nv ≠ .error .circularRef) :
+    Except.map Prod.fst (process1 (fuel + 2) docs (.map kvs) (some []) (.map kvs)) =
+      Except.map Prod.fst
+        (process1 (fuel + 2) docs (.map (fset kvs h nv)) (some []) (.map (fset kvs h nv))) :=
+  inline_merge_safe_core hs hh hhk hm hp hk ht (Or.inr (Or.inr htf)) ho h1 hn hfuel
+
+/-- When the referenced value is a map (without the `$replace: true` marker) it need not be
+    reference-free, and neither need the local content: the merged map is evaluated in place of
+    the host in both documents. -/
+theorem C10_inline_merge_map_partial {fuel : Nat} {docs : List Val} {kvs m s : Fields}
+    {h k : String} {ref nv : Val} {ks : List String}
+    (hs : Fields.SortedKeys kvs) (hh : fget kvs h = some (.map m)) (hhk : refKey h = false)
+    (hm : fget m "$merge" = some ref) (hp : PathRef ref (k :: ks)) (hk : k ≠ h)
+    (ht : getPath (.map kvs) (k :: ks) = .ok (.map s)) (hr : fhasBool s "$replace" true = false)
+    (ho : SafeFields h (fdel kvs h) = true) (h1 : fget kvs "$replace" = none)
+    (hn : merge (.map (fdel m "$merge")) (.map s) = .ok nv)
+    (hfuel : process1 fuel docs (.map (fset kvs h nv)) (some [.key h]) nv ≠ .error .circularRef) :
+    Except.map Prod.fst (process1 (fuel + 2) docs (.map kvs) (some []) (.map kvs)) =
+      Except.map Prod.fst
+        (process1 (fuel + 2) docs (.map (fset kvs h nv)) (some []) (.map (fset kvs h nv))) :=
+  inline_merge_safe_core hs hh hhk hm hp hk ht (Or.inl ⟨s, rfl, hr⟩) ho h1 hn hfuel
+
+/-- … and when the ordinary merge fails, the document fails (with that error, unless an entry
+    before the host has failed already). -/
+theorem C10_inline_merge_conflict_safe_partial {fuel : Nat} {docs : List Val} {kvs m : Fields}
+    {h k : String} {ref t : Val} {ks : List String} {e : Err}
+    (hs : Fields.SortedKeys kvs) (hh : fget kvs h = some (.map m)) (hhk : refKey h = false)
+    (hm : fget m "$merge" = some ref) (hp : PathRef ref (k :: ks)) (hk : k ≠ h)
+    (ht : getPath (.map kvs) (k :: ks) = .ok t) (htf : refFree t = true)
+    (ho : SafeFields h (fdel kvs h) = true) (h1 : fget kvs "$replace" = none)
+    (hn : merge (.map (fdel m "$merge")) t = .error e) :
+    ∃ e', process1 (fuel + 2) docs (.map kvs) (some []) (.map kvs) = .error e' :=
+  inline_merge_error_safe_core hs hh hhk hm hp hk ht (Or.inr (Or.inr htf)) ho h1 hn
+
+/-- With reference-free other entries within the depth guard the error is exactly the error of
+    the merge. -/
+theorem C10_inline_merge_conflict_partial {fuel : Nat} {docs : List Val} {kvs m : Fields}
+    {h k : String} {ref t : Val} {ks : List String} {e : Err}
+    (hs : Fields.SortedKeys kvs) (hh : fget kvs h = some (.map m)) (hhk : refKey h = false)
+    (hm : fget m "$merge" = some ref) (hp : PathRef ref (k :: ks)) (hk : k ≠ h)
+    (ht : getPath (.map kvs) (k :: ks) = .ok t) (htf : refFree t = true)
+    (ho : refFreeFields (fdel kvs h) = true)
+    (hd : ∀ p ∈ fdel kvs h, depth p.2 < fuel + 1)
+    (hn : merge (.map (fdel m "$merge")) t = .error e) :
+    process1 (fuel + 2) docs (.map kvs) (some []) (.map kvs) = .error e :=
+  inline_merge_error_core hs hh hhk hm hp hk ht (Or.inr (Or.inr htf)) ho hd hn
+
+/-- the same at the level of `processDoc` / `outputDocument` -/
+theorem C10_inline_merge_output_partial {docs : List Val} {env : Vars} {kvs m : Fields}
+    {h k : String} {ref t nv : Val} {ks : List String}
+    (hs : Fields.SortedKeys kvs) (hh : fget kvs h = some (.map m)) (hhk : refKey h = false)
+    (hm : fget m "$merge" = some ref) (hp : PathRef ref (k :: ks)) (hk : k ≠ h)
+    (ht : getPath (.map kvs) (k :: ks) = .ok t) (htf : refFree t = true)
+    (ho : SafeFields h (fdel kvs h) = true) (h1 : fget kvs "$replace" = none)
+    (hn : merge (.map (fdel m "$merge")) t = .ok nv)
+    (hfuel : process1 (depthLimit - 2) docs (.map (fset kvs h nv)) (some [.key h]) nv ≠
+      .error .circularRef) :
+    processDoc docs env (.map kvs) = processDoc docs env (.map (fset kvs h nv)) ∧
+    outputDocument docs env (.map kvs) = outputDocument docs env (.map (fset kvs h nv)) := by
+  have hdl : depthLimit - 2 + 2 = depthLimit := rfl
+  have := inline_merge_safe_core hs hh hhk hm hp hk ht (Or.inr (Or.inr htf)) ho h1 hn hfuel
+  rw [hdl] at this
+  exact ⟨processDoc_congr this, outputDocument_congr (processDoc_congr this)⟩
+
+theorem C10_inline_merge_conflict_output_partial {docs : List Val} {env : Vars} {kvs m : Fields}
+    {h k : String} {ref t : Val} {ks : List String} {e : Err}
+    (hs : Fields.SortedKeys kvs) (hh : fget kvs h = some (.map m)) (hhk : refKey h = false)
+    (hm : fget m "$merge" = some ref) (hp : PathRef ref (k :: ks)) (hk : k ≠ h)
+    (ht : getPath (.map kvs) (k :: ks) = .ok t) (htf : refFree t = true)
+    (ho : refFreeFields (fdel kvs h) = true)
+    (hd : ∀ p ∈ fdel kvs h, depth p.2 + 1 < depthLimit)
+    (hn : merge (.map (fdel m "$merge")) t = .error e) :
+    processDoc docs env (.map kvs) = .error e ∧ outputDocument docs env (.map kvs) = .error e := by
+  have hdl : depthLimit - 2 + 2 = depthLimit := rfl
+  have := inline_merge_error_core (fuel := depthLimit - 2) (docs := docs) hs hh hhk hm hp hk ht
+    (Or.inr (Or.inr htf)) ho (fun p hp => by have := hd p hp; omega) hn
+  rw [hdl] at this
+  have h1 : processDoc docs env (.map kvs) = .error e := by
+    unfold processDoc; rw [this]; rfl
+  exact ⟨h1, by unfold outputDocument; rw [h1]; rfl⟩
+
+-- non-vacuity: `a: {y: 2}, b: {$merge: a, x: 1}`; inline document `a: {y: 2}, b: {x: 1, y: 2}`
+example (fuel : Nat) (docs : List Val) :
+    let kvs : Fields := [("a", .map [("y", .int 2)]),
+      ("b", .map [("$merge", .str "a"), ("x", .int 1)])]
+    let nv : Val := .map [("x", .int 1), ("y", .int 2)]
+    Fields.SortedKeys kvs ∧ fget kvs "b" = some (.map [("$merge", .str "a"), ("x", .int 1)]) ∧
+    refKey "b" = false ∧ fget [("$merge", Val.str "a"), ("x", .int 1)] "$merge" = some (.str "a") ∧
+    PathRef (.str "a") ["a"] ∧ "a" ≠ "b" ∧ getPath (.map kvs) ["a"] = .ok (.map [("y", .int 2)]) ∧
+    refFree (.map [("y", .int 2)]) = true ∧ SafeFields "b" (fdel kvs "b") = true ∧
+    fget kvs "$replace" = none ∧
+    merge (.map (fdel [("$merge", Val.str "a"), ("x", .int 1)] "$merge")) (.map [("y", .int 2)]) =
+      .ok nv ∧
+    process1 (fuel + 2) docs (.map (fset kvs "b" nv)) (some [.key "b"]) nv ≠ .error .circularRef ∧
+    fset kvs "b" nv = [("a", .map [("y", .int 2)]), ("b", nv)] :=
+  ⟨by decide, by decide, by decide, by decide, pathRef_simpleKey simpleKey_a, by decide, rfl,
+   by decide, refFreeFields_safe "b" _ (by decide), by decide, merge_x_y,
+   refFree_ne_circ (by decide) (by have : depth (.map [("x", .int 1), ("y", .int 2)]) = 1 := by decide
+                                   omega) _ _ _,
+   by decide⟩
+
+-- non-vacuity of the conflict law: `a: {x: 1}, b: {$merge: a, x: 1}`
+example :
+    let kvs : Fields := [("a", .map [("x", .int 1)]),
+      ("b", .map [("$merge", .str "a"), ("x", .int 1)])]
+    Fields.SortedKeys kvs ∧ getPath (.map kvs) ["a"] = .ok (.map [("x", .int 1)]) ∧
+    refFreeFields (fdel kvs "b") = true ∧ (∀ p ∈ fdel kvs "b", depth p.2 + 1 < depthLimit) ∧
+    merge (.map (fdel [("$merge", Val.str "a"), ("x", .int 1)] "$merge")) (.map [("x", .int 1)]) =
+      .error .uselessOverride :=
+  ⟨by decide, rfl, by decide, by decide, merge_x_x⟩
+
+/-- **FALSE without the restriction on the other entries** (the `$merge` analogue).  In
+    `a: {$replace: [b, $merge]}, b: {$merge: c, x: 1}, c: {y: 2}` the entry `a` reads the raw
+    `$merge` key of the host `b` and evaluates to the string `c`; with the merged map
+    `{x: 1, y: 2}` written inline at `b` that path does not exist. -/
+theorem C10_inline_merge_false (fuel : Nat) (docs : List Val) :
+    Fields.SortedKeys cexHostRead ∧ Val.WF (.map cexHostRead) ∧
+    fget cexHostRead "b" = some (.map [("$merge", .str "c"), ("x", .int 1)]) ∧
+    PathRef (.str "c") ["c"] ∧ getPath (.map cexHostRead) ["c"] = .ok (.map [("y", .int 2)]) ∧
+    refFree (.map [("y", .int 2)]) = true ∧
+    merge (.map (fdel [("$merge", Val.str "c"), ("x", .int 1)] "$merge")) (.map [("y", .int 2)]) =
+      .ok (.map [("x", .int 1), ("y", .int 2)]) ∧
+    Except.map Prod.fst
+      (process1 (fuel + 4) docs (.map cexHostRead) (some []) (.map cexHostRead)) =
+      .ok (.map [("a", .str "c"), ("b", .map [("x", .int 1), ("y", .int 2)]),
+                 ("c", .map [("y", .int 2)])]) ∧
+    Except.map Prod.fst
+      (process1 (fuel + 4) docs
+        (.map (fset cexHostRead "b" (.map [("x", .int 1), ("y", .int 2)]))) (some [])
+        (.map (fset cexHostRead "b" (.map [("x", .int 1), ("y", .int 2)])))) =
+      .error .refNotFound :=
+  ⟨by decide, by decide, by decide, pathRef_simpleKey simpleKey_c, rfl, by decide, merge_x_y,
+   cexHostRead_ref fuel docs, by rw [cexHostRead_inline (fuel + 2) docs]; rfl⟩
+
+/-! ### chains of references -/
+
+/-- **Chain.**  `a₁: "$replace:a₂"`, …, `aₖ₋₁: "$replace:aₖ"`, `aₖ: t` (`chainLinks`, every `aᵢ`
+    a simple key; `t` arbitrary): the reference to `aᵢ` evaluates to exactly what (a copy of) `t`
+    evaluates to, each link costing one unit of fuel. -/
+theorem C10_chain {kvs : Fields} {t : Val} (pre : List String) (a : String) (rest : List String)
+    (hc : chainLinks kvs t (pre ++ a :: rest)) (fuel : Nat) (docs : List Val) (loc : Loc) :
+    process1 (fuel + rest.length + 1) docs (.map kvs) loc (.str ("$replace:" ++ a)) =
+      process1 fuel docs (.map kvs) none t :=
+  chain_ref rest a (chainLinks_suffix pre hc) fuel docs loc
+
+/-- The value stored at `aᵢ` itself (for a reference-free `t`): what `t` evaluates to, whatever
+    the stream, the location and the position in the chain; the root is not touched. -/
+theorem C10_chain_values {kvs : Fields} {t : Val} (pre : List String) (a : String)
+    (rest : List String) (hc : chainLinks kvs t (pre ++ a :: rest)) (htf : refFree t = true) :
+    ∃ v, fget kvs a = some v ∧ ∀ (fuel : Nat) (docs : List Val) (loc : Loc),
+      process1 (fuel + rest.length) docs (.map kvs) loc v =
+        Except.map (fun r => (r.1, Val.map kvs)) (process1 fuel [] .null none t) :=
+  chain_value (chainLinks_suffix pre hc) htf
+
+/-- At the level of the document: if the document consists of the chain and of reference-free
+    entries, every `aᵢ` of the evaluated document holds the evaluation `tv` of `t` (nothing, if
+    `tv` is `null`), and the document root is unchanged. -/
+theorem C10_chain_document {fuel : Nat} {docs : List Val} {kvs : Fields} {t tv v r' : Val}
+    {as : List String}
+    (hs : Fields.SortedKeys kvs) (hc : chainLinks kvs t as) (htf : refFree t = true)
+    (hkeys : ∀ p ∈ kvs, refKey p.1 = false)
+    (ho : ∀ p ∈ kvs, p.1 ∉ as → refFree p.2 = true)
+    (htv : process1 fuel [] .null none t = .ok (tv, .null))
+    (hrun : process1 (fuel + as.length + 1) docs (.map kvs) (some []) (.map kvs) = .ok (v, r')) :
+    r' = .map kvs ∧ ∀ a ∈ as,
+      getPath v [a] = if tv.isNull then .error .refNotFound else .ok tv :=
+  chain_document_core hs hc htf hkeys ho htv hrun
+
+-- non-vacuity: `a: "$replace:b", b: "$replace:c", c: {x: 1}`
+example :
+    let kvs : Fields := [("a", .str ("$replace:" ++ "b")), ("b", .str ("$replace:" ++ "c")),
+      ("c", .map [("x", .int 1)])]
+    chainLinks kvs (.map [("x", .int 1)]) ([] ++ "a" :: ["b", "c"]) ∧
+    chainLinks kvs (.map [("x", .int 1)]) (["a"] ++ "b" :: ["c"]) ∧
+    chainLinks kvs (.map [("x", .int 1)]) (["a", "b"] ++ "c" :: []) ∧
+    Fields.SortedKeys kvs ∧ refFree (.map [("x", .int 1)]) = true ∧
+    (∀ p ∈ kvs, refKey p.1 = false) ∧ (∀ p ∈ kvs, p.1 ∉ ["a", "b", "c"] → refFree p.2 = true) ∧
+    process1 2 [] .null none (.map [("x", .int 1)]) = .ok (.map [("x", .int 1)], .null) := by
+  have hc : chainLinks [("a", .str ("$replace:" ++ "b")), ("b", .str ("$replace:" ++ "c")),
+      ("c", .map [("x", .int 1)])] (.map [("x", .int 1)]) ["a", "b", "c"] :=
+    ⟨simpleKey_a, by decide, simpleKey_b, by decide, simpleKey_c, by decide⟩
+  exact ⟨hc, hc, hc, by decide, by decide, by decide, by decide, by rfl⟩
+
+/-- … and such a document does evaluate (the other entries are within the depth guard): the
+    complete statement, without the hypothesis that the evaluation succeeds. -/
+theorem C10_chain_document_ok {fuel : Nat} {docs : List Val} {kvs : Fields} {t tv : Val}
+    {as : List String}
+    (hs : Fields.SortedKeys kvs) (hc : chainLinks kvs t as) (htf : refFree t = true)
+    (hkeys : ∀ p ∈ kvs, refKey p.1 = false)
+    (ho : ∀ p ∈ kvs, p.1 ∉ as → refFree p.2 = true ∧ depth p.2 < fuel + as.length)
+    (htv : process1 fuel [] .null none t = .ok (tv, .null)) :
+    ∃ v, process1 (fuel + as.length + 1) docs (.map kvs) (some []) (.map kvs) =
+        .ok (v, .map kvs) ∧
+      ∀ a ∈ as, getPath v [a] = if tv.isNull then .error .refNotFound else .ok tv := by
+  obtain ⟨v, hv⟩ := chain_document_ok (docs := docs) hs hc htf hkeys ho htv
+  exact ⟨v, hv, (chain_document_core hs hc htf hkeys (fun p hp hm => (ho p hp hm).1) htv hv).2⟩
+
+example :
+    let kvs : Fields := [("a", .str ("$replace:" ++ "b")), ("b", .str ("$replace:" ++ "c")),
+      ("c", .map [("x", .int 1)]), ("d", .int 7)]
+    ∀ p ∈ kvs, p.1 ∉ ["a", "b", "c"] → refFree p.2 = true ∧ depth p.2 < 2 + 3 := by decide
+
+/-! ### the referenced subtree is left unchanged -/
+
+/-- **`$replace`: the referenced subtree in the result.**  In the setting of
+    `C10_inline_replace_refFree_partial` (reference-free other entries), with a well-formed
+    document and the target outside the host (`k ≠ h`): if the document evaluates to `(v, r')`
+    then the threaded root is unchanged (`r' = root`; in particular the path still holds `t`),
+    and in the evaluated document both the
+    path `k :: ks` and the host key `h` hold the evaluation `tv` of `t` (both are absent when `tv`
+    is `null`): expansion at the host did not alter the target. -/
+theorem C10_referenced_unchanged_output {fuel : Nat} {docs : List Val} {kvs : Fields}
+    {h k : String} {hostv ref t v r' : Val} {ks : List String}
+    (hw : Val.WF (.map kvs)) (hh : fget kvs h = some hostv) (hhk : refKey h = false)
+    (hfw : Forwards hostv ref) (hp : PathRef ref (k :: ks)) (hk : k ≠ h)
+    (ht : getPath (.map kvs) (k :: ks) = .ok t)
+    (htf : refFree t = true) (ho : refFreeFields (fdel kvs h) = true)
+    (hrun : process1 (fuel + 2) docs (.map kvs) (some []) (.map kvs) = .ok (v, r')) :
+    r' = .map kvs ∧ getPath r' (k :: ks) = .ok t ∧
+    ∃ tv, process1 (fuel + 1) [] .null none t = .ok (tv, .null) ∧
+      getPath v (k :: ks) = (if tv.isNull then .error .refNotFound else .ok tv) ∧
+      getPath v [h] = (if tv.isNull then .error .refNotFound else .ok tv) := by
+  obtain ⟨h1, h2⟩ := replace_unchanged_core hw hh hhk hfw hp hk ht htf ho hrun
+  exact ⟨h1, by rw [h1]; exact ht, h2⟩
+
+/-- **`$merge`: the referenced subtree in the result.**  In the setting of
+    `C10_inline_merge_partial` with reference-free other entries (whatever the host does with the
+    referenced value): if the document
+    evaluates to `(v, r')` then the threaded root — in which the host has been expanded in place —
+    still holds `t` at the path, and the evaluated document holds the evaluation of `t` there.
+    (Connects `C10_target_unchanged` to the final result.) -/
+theorem C10_referenced_unchanged_output_merge {fuel : Nat} {docs : List Val} {kvs m : Fields}
+    {h k : String} {t v r' : Val} {ks : List String}
+    (hw : Val.WF (.map kvs)) (hh : fget kvs h = some (.map m)) (hhk : refKey h = false)
+    (hk : k ≠ h) (ht : getPath (.map kvs) (k :: ks) = .ok t)
+    (ho : refFreeFields (fdel kvs h) = true)
+    (hrun : process1 (fuel + 2) docs (.map kvs) (some []) (.map kvs) = .ok (v, r')) :
+    getPath r' (k :: ks) = .ok t ∧
+    ∃ tv, process1 (fuel + 1) [] .null none t = .ok (tv, .null) ∧
+      getPath v (k :: ks) = (if tv.isNull then .error .refNotFound else .ok tv) :=
+  merge_unchanged_core hw hh hhk hk ht ho hrun
+
+-- non-vacuity: the two example documents do evaluate
+example (fuel : Nat) (docs : List Val) :
+    let kvs : Fields := [("a", .map [("x", .int 1)]), ("b", .map [("$replace", .str "a")])]
+    Val.WF (.map kvs) ∧ "a" ≠ "b" ∧
+    ∃ r', process1 (fuel + 2 + 2) docs (.map kvs) (some []) (.map kvs) =
+      .ok (.map [("a", .map [("x", .int 1)]), ("b", .map [("x", .int 1)])], r') := by
+  refine ⟨by decide, by decide, ?_⟩
+  apply ok_of_map_fst
+  rw [C10_inline_replace_partial (fuel := fuel + 2) (h := "b") (t := .map [("x", .int 1)])
+    (hostv := .map [("$replace", .str "a")]) (ref := .str "a")
+    (by decide) (by decide) (by decide) (forwards_map_replace (by decide) (by decide))
+    (pathRef_simpleKey simpleKey_a) rfl (by decide) (refFreeFields_safe "b" _ (by decide))
+    (by decide)
+    (process1_refFree_ne_circ (by decide)
+      (by have : depth (.map [("x", .int 1)]) = 1 := by decide
+          omega))]
+  have hk : fset [("a", .map [("x", .int 1)]), ("b", .map [("$replace", .str "a")])] "b"
+      (.map [("x", .int 1)]) = [("a", .map [("x", .int 1)]), ("b", .map [("x", .int 1)])] := by
+    decide
+  rw [hk, process1_plain_eval docs _ _
+    (x := .map [("a", .map [("x", .int 1)]), ("b", .map [("x", .int 1)])])
+    (by decide) (by decide) (d := 2) (by decide) (by omega) (by decide)]
+  rfl
+
+example (fuel : Nat) (docs : List Val) :
+    let kvs : Fields := [("a", .map [("y", .int 2)]),
+      ("b", .map [("$merge", .str "a"), ("x", .int 1)])]
+    Val.WF (.map kvs) ∧
+    ∃ r', process1 (fuel + 2 + 2) docs (.map kvs) (some []) (.map kvs) =
+      .ok (.map [("a", .map [("y", .int 2)]), ("b", .map [("x", .int 1), ("y", .int 2)])], r') := by
+  refine ⟨by decide, ?_⟩
+  apply ok_of_map_fst
+  rw [C10_inline_merge_partial (fuel := fuel + 2) (h := "b") (k := "a") (ks := [])
+    (t := .map [("y", .int 2)]) (nv := .map [("x", .int 1), ("y", .int 2)])
+    (m := [("$merge", .str "a"), ("x", .int 1)]) (ref := .str "a")
+    (by decide) (by decide) (by decide) (by decide) (pathRef_simpleKey simpleKey_a) (by decide)
+    rfl (by decide) (refFreeFields_safe "b" _ (by decide)) (by decide) merge_x_y
+    (refFree_ne_circ (by decide)
+      (by have : depth (.map [("x", .int 1), ("y", .int 2)]) = 1 := by decide
+          omega) _ _ _)]
+  have hk : fset [("a", .map [("y", .int 2)]), ("b", .map [("$merge", .str "a"), ("x", .int 1)])]
+      "b" (.map [("x", .int 1), ("y", .int 2)]) =
+      [("a", .map [("y", .int 2)]), ("b", .map [("x", .int 1), ("y", .int 2)])] := by decide
+  rw [hk, process1_plain_eval docs _ _
+    (x := .map [("a", .map [("y", .int 2)]), ("b", .map [("x", .int 1), ("y", .int 2)])])
+    (by decide) (by decide) (d := 2) (by decide) (by omega) (by decide)]
+  rfl
 
 end Bkl
